@@ -128,9 +128,9 @@ def C07(tier, seed):
 
 def C11(tier, seed):
     drivers = []
-    for tk in ("spl", "t22"):
+    for tk in ("spl", "t22", "t22fee"):
         if tier == "quick":
-            drivers += hist_jobs(f"hist_rw_{tk}_", seed, 4, 4, 200, tk, ["--rewards", "1"])
+            drivers += hist_jobs(f"hist_rw_{tk}_", seed, 4 if tk != "t22fee" else 2, 4, 200, tk, ["--rewards", "1"])
         else:
             drivers += hist_jobs(f"hist_rw_{tk}_", seed, 8, 40, 300, tk, ["--rewards", "1"])
     models = [mc("MC_Rewards", tier, "MC_Rewards"), {"name": "MC_Rewards_cov", "module": "MC_Rewards", "cfg": "MC_Rewards_cov.cfg", "timeout": 600, "workers": 1}]
